@@ -163,7 +163,7 @@ def check(ctx):
                     t0 = arms[0].a["target"] if arms else None
                     a_ok = len(arms) == 1 and isinstance(t0, tuple) and (
                         (t0[0] == "bm" and t0[2].qual == ent.func.qual and tuple(arms[0].a["args"]) == (req,)) or
-                        (t0[0] == "closure" and t0[1].qual == ent.func.qual and req in arms[0].a["args"]))
+                        (t0[0] == "closure" and (cat._target(t0)[0] or t0[1].qual) == ent.func.qual and req in arms[0].a["args"]))
                 ctx.ob("R-RETRY", "%s %s expiry re-arms its own timer for the same request" % (cq, kind), a_ok,
                        where=where(arms[0]) if arms else w, function=ent.func.qual, construct="%s/rearm" % ent.func.qual,
                        msg="expiry path arms %s" % [(show(x.a["target"]), [show(y) for y in x.a["args"]]) for x in arms])
@@ -219,9 +219,9 @@ def check(ctx):
                         elif vcond is False:
                             ok = len(pats) == 0
                         else:
-                            ok = len(pats) == 0 if False else (len(pats) == 0)
-                            if pats:
-                                ok = False
+                            # the protocol version is not looked at on this path: fine for a first transmission (nothing to set); a
+                            # repeat that never asks cannot carry DUP under 3.1 and leave it clear under 3.1.1
+                            ok = len(pats) == 0 and exp_dup == 0
                     if not unconditional and exp_dup == 8:
                         resent_kinds.setdefault(kind, e)
                         if vcond is True and len(pats) == 1 and pats[0].a["val"] == ("const", 8):
